@@ -40,6 +40,7 @@ pub struct CounterSum {
     pub recycled: u64,
     pub dirty: u64,
     pub guarded: u64,
+    pub straddled: u64,
     pub bytes: u64,
 }
 
@@ -55,6 +56,7 @@ impl CounterSum {
         self.recycled += c.recycled;
         self.dirty += c.dirty;
         self.guarded += c.guarded;
+        self.straddled += c.straddled;
         self.bytes += c.bytes;
     }
     pub fn merge(&mut self, o: &CounterSum) {
@@ -68,9 +70,10 @@ impl CounterSum {
         self.recycled += o.recycled;
         self.dirty += o.dirty;
         self.guarded += o.guarded;
+        self.straddled += o.straddled;
         self.bytes += o.bytes;
     }
-    pub fn fields(&self) -> [(&'static str, u64); 11] {
+    pub fn fields(&self) -> [(&'static str, u64); 12] {
         [
             ("allocs", self.allocs),
             ("frees", self.frees),
@@ -82,6 +85,7 @@ impl CounterSum {
             ("recycled", self.recycled),
             ("dirty", self.dirty),
             ("guarded", self.guarded),
+            ("straddled", self.straddled),
             ("bytes", self.bytes),
         ]
     }
@@ -97,6 +101,7 @@ impl CounterSum {
             "recycled" => self.recycled = v,
             "dirty" => self.dirty = v,
             "guarded" => self.guarded = v,
+            "straddled" => self.straddled = v,
             "bytes" => self.bytes = v,
             _ => {}
         }
